@@ -686,6 +686,15 @@ class TCPHiddenServiceEndpoint(object):
                 # no service: don't leave the local listener behind
                 yield defer.maybeDeferred(self.tcp_listening_port.stopListening)
                 self.tcp_listening_port = None
+                if not self.ephemeral:
+                    # ...nor, in the config, a service forwarding to
+                    # it: another listen() would take that for an
+                    # existing one and not tell Tor about its new port
+                    hsdir = os.path.abspath(self.hidden_service_dir)
+                    for hs in list(self._config.HiddenServices):
+                        if hsdir in (getattr(hs, 'dir', None),
+                                     getattr(hs, 'hidden_service_directory', None)):
+                            self._config.HiddenServices.remove(hs)
                 raise
 
         else:
